@@ -254,15 +254,18 @@ class Fn:
                         r = r['e']
                     if tgt and r.get('k') == 'path' and node['args']:
                         self.binds.setdefault(tgt, []).append(('mut', node['method'], node['args'][-1], node))
+            has_k = 'k' in node
             for key, v in node.items():
                 if key.startswith('_'):
                     continue
                 if isinstance(v, dict):
-                    walk(v, node if 'k' in node else parent, key)
+                    # containers without a kind (match arms, struct-literal fields) pass the position they occupy
+                    # in their parent down to their children
+                    walk(v, node if has_k else parent, key if has_k else role)
                 elif isinstance(v, list):
                     for i, x in enumerate(v):
                         if isinstance(x, dict):
-                            walk(x, node if 'k' in node else parent, (key, i))
+                            walk(x, node if has_k else parent, (key, i) if has_k else role)
         self._pending_writes = []
         walk(self.body, None, 'body')
         # write!(target, fmt, args..) appends to `target` when it is a local String
